@@ -94,11 +94,12 @@ Definition motion_ids (pi : T) (ps : list (V3 T)) (ang : nat -> nat -> T) (dthr 
        Some (0 :: motion_aux dthr a ang 0 n0 1 (tl (acc_dists ps))).
 (* oracle table keyed by the pair of rotation-matrix classes: cls_p = cls_q iff poses p and q have the
    same rotation matrix, so the angle is a function of (cls_p, cls_i); row c2 is an association list
-   c1 |-> angle between a pose of class c1 and a pose of class c2 *)
-Fixpoint assoc (a : nat) (row : list (nat * T)) (dflt : T) : T :=
-  match row with [] => dflt | (x, v) :: r => if Nat.eqb x a then v else assoc a r dflt end.
-Definition class_ang (cls : list nat) (rows : list (list (nat * T))) (dflt : T) (p i : nat) : T :=
-  assoc (nth p cls 0) (nth (nth i cls 0) rows []) dflt.
+   c1 |-> angle between a pose of class c1 and a pose of class c2. Class ids are binary integers
+   (unary literals of this size make the case files too slow to type-check). *)
+Fixpoint assoc (a : Z) (row : list (Z * T)) (dflt : T) : T :=
+  match row with [] => dflt | (x, v) :: r => if Z.eqb x a then v else assoc a r dflt end.
+Definition class_ang (cls : list Z) (rows : list (list (Z * T))) (dflt : T) (p i : nat) : T :=
+  assoc (nth p cls 0%Z) (nth (Z.to_nat (nth i cls 0%Z)) rows []) dflt.
 
 (* ---------------- reduce_to_time_range ---------------- *)
 Definition crop_ids (ts : list T) (start stop : option T) : option (list nat) :=
